@@ -2,6 +2,7 @@ use crate::cell;
 use crate::cell::Cell;
 use crate::error::Error;
 use crate::error::Error::InvalidSyntax;
+use crate::number::Number;
 
 macro_rules! car {
     ($cell:expr) => {{
@@ -158,6 +159,25 @@ impl Pattern {
             }
             _ => {}
         }
+    }
+}
+
+/// True if the two data are equal? in the sense of Scheme: Cell's == compares numbers
+/// by value only, here their exactness has to agree as well.
+fn same_datum(pattern: &Cell, expr: &Cell) -> bool {
+    match (pattern, expr) {
+        (Cell::Number(pattern), Cell::Number(expr)) => {
+            pattern == expr
+                && matches!(pattern, Number::Float(_)) == matches!(expr, Number::Float(_))
+        }
+        (Cell::Vector(pattern), Cell::Vector(expr)) => {
+            pattern.len() == expr.len()
+                && pattern.iter().zip(expr.iter()).all(|(p, e)| same_datum(p, e))
+        }
+        (Cell::Pair(pcar, pcdr), Cell::Pair(ecar, ecdr)) => {
+            same_datum(pcar, ecar) && same_datum(pcdr, ecdr)
+        }
+        _ => pattern == expr,
     }
 }
 
@@ -439,7 +459,9 @@ impl Transform {
                     }
                 }
                 pattern => {
-                    if pattern != expr {
+                    // a pattern datum matches an input that is equal? to it; for numbers
+                    // that includes exactness, which Cell's == ignores
+                    if !same_datum(pattern, expr) {
                         return false;
                     }
                 }
